@@ -15,8 +15,11 @@ vars == <<l, docs, open>>
 
 N == Len(docs)
 St(dd) == ToSet(dd.st)
+\* `news`: what has_news_for_us answers to a fixed report naming authors 1 and 2 at timestamp 1 = the number of those
+\* two authors nothing is held of (news detection reads the heads - possibly through a cache of its own)
+NewsOk(dd) == dd.news = Cardinality({a \in {1, 2} : ~\E e \in ToSet(dd.st) : e.a = a})
 Gone(dd) == dd.cap = "none" /\ dd.st = <<>> /\ dd.heads = <<>> /\ dd.bykey = <<>> /\ dd.peers = <<>>
-            /\ dd.pol = DefaultPolicy
+            /\ dd.pol = DefaultPolicy /\ dd.news = 2
 HeadsFn(hs) == [a \in {hs[i].a : i \in 1..Len(hs)} |-> hs[CHOOSE i \in 1..Len(hs) : hs[i].a = a].ts]
 HeadsOk(dd) ==   \* one head per author, the greatest timestamp among the author's records held (C13)
   /\ \A i, j \in 1..Len(dd.heads) : dd.heads[i].a = dd.heads[j].a => i = j
@@ -106,7 +109,7 @@ Global(r) ==
   /\ Prop \in {"C16"} => ToSet(r.hashes) = UNION {{e.h : e \in St(r.docs[o])} : o \in 1..N}
   /\ (Prop = "C18" /\ r.ev = "DropDerived") => \A o \in 1..N : Derived(r.docs[o])
   /\ Prop = "C17" => \A o \in 1..N : Len(r.docs[o].peers) <= PeerCap
-  /\ Prop = "C13" => \A o \in 1..N : HeadsOk(r.docs[o])
+  /\ Prop = "C13" => \A o \in 1..N : HeadsOk(r.docs[o]) /\ NewsOk(r.docs[o])
 
 Check(r) ==
   CASE r.ev \in {"Reopen", "DropDerived"} ->
